@@ -667,7 +667,10 @@ class World:
             4: ".hidden_dir",
             5: "x" + base[1:] if base[0] != "x" else "y" + base[1:],
             6: "tmp." + base,
-        }[kind % 7]
+            # a free, well-formed id followed by one character an anchored-looking pattern may let through
+            7: "0a1b2c3d4e5f60718293a4b5c6d7e8f9\n",
+            8: "0a1b2c3d4e5f60718293a4b5c6d7e8f9 ",
+        }[kind % 9]
         path = os.path.join(ws, name)
         if not os.path.exists(path):
             os.makedirs(path)
